@@ -132,6 +132,14 @@ class ScalarAngle(RegionAttribute):
     angular units.
     """
 
+    def __set__(self, instance, value):
+        self._validate(value)
+        # store an independent copy: the default angle of the region
+        # constructors is a single object, which an in-place update of
+        # one region's angle (e.g., region.angle += 10 * u.deg) would
+        # otherwise change for all regions
+        instance.__dict__[self.name] = value.copy()
+
     def _validate(self, value):
         if isinstance(value, Quantity):
             if not value.isscalar:
